@@ -45,8 +45,11 @@ pub fn dispatch(op: &str, req: &Value) -> Result<Value, String> {
                 _ => GenerationStrategy::Weighted,
             };
             let gens: Vec<TrainDataGenerator> = lengths.iter().enumerate().map(|(s, n)| {
-                let items: Vec<anyhow::Result<TrainData>> =
-                    (0..*n).map(|j| Ok(TrainData::new(format!("s{s}_{j}"), None))).collect();
+                // optional: one item of one source is an Err (a malformed line in the middle of a file)
+                let err = req.get("err").and_then(|e| e.as_array()).map(|e| (e[0].as_u64().unwrap_or(0) as usize, e[1].as_u64().unwrap_or(0) as usize));
+                let items: Vec<anyhow::Result<TrainData>> = (0..*n)
+                    .map(|j| if err == Some((s, j)) { Err(anyhow::anyhow!("s{s}_{j}")) } else { Ok(TrainData::new(format!("s{s}_{j}"), None)) })
+                    .collect();
                 Box::new(Gen { items: items.into_iter(), len: *n }) as TrainDataGenerator
             }).collect();
             let total: usize = lengths.iter().sum();
@@ -56,8 +59,10 @@ pub fn dispatch(op: &str, req: &Value) -> Result<Value, String> {
             };
             let mut out = vec![];
             for (item, src) in gen.take(total + 3) {
-                let d = item.map_err(|e| e.to_string())?;
-                let name = input_of(&d);
+                let name = match item {
+                    Ok(d) => input_of(&d),
+                    Err(e) => e.to_string(),
+                };
                 let mut it = name[1..].split('_');
                 let s: usize = it.next().unwrap().parse().unwrap();
                 let j: usize = it.next().unwrap().parse().unwrap();
